@@ -183,7 +183,7 @@ static void overlaps(void) {
         int to_wide = fn <= F_MBSRTOWCS; s.fn = fn; s.n = 0;
         wchar_t rw[16]; char rm[64]; size_t k = to_wide ? mbstowcs(rw, MB[si], 15) : wcstombs(rm, WC[si], 63); if (k == (size_t)-1) continue;
         size_t srcb = to_wide ? strlen(MB[si]) + 1 : (wcslen(WC[si]) + 1) * 4, dmax = k + 3, destb = dmax * (to_wide ? 4 : 1), step = to_wide ? 1 : 4;
-        for (long off = -(long)srcb + (long)step; off < (long)destb; off += (long)step) {      /* src = dest + off (bytes) */
+        for (long off = -(long)srcb; off <= (long)destb; off += (long)step) {      /* src = dest + off (bytes); the two ends of the range are operands that touch without overlapping */
             if (!to_wide && off % 4) continue; if (to_wide && off < 0 && (-off) % 4) continue;   /* keep both operands aligned for their type */
             size_t tot = destb + srcb + (size_t)(off < 0 ? -off : off) + 8;
             uint8_t *blk = place_end(0, (tot + 7) & ~(size_t)7); memset(blk, 0x6b, tot);
@@ -202,6 +202,12 @@ static void overlaps(void) {
             char det[100]; snprintf(det, sizeof det, "overlap|%s", off == 0 ? "same-pointer" : off > 0 ? "src-inside-dest" : "dest-inside-src");
             {   char b[160]; snprintf(b, sizeof b, "%s;%s;%d;%s", FN[fn], det, si, g_fence.faulted ? "fault" : errname(rc)); distinct_add(hash_str(b)); }
             if (g_fence.faulted) { snprintf(obs, sizeof obs, "%s fault with src = dest%+ld bytes", g_fence.is_write ? "WRITE" : "READ", off); vio(g_fence.is_write ? "C01" : "C02", &s, -1, g_fence.is_write ? "W-fault" : "R-fault", det, obs); continue; }
+            if (off == -(long)srcb || off == (long)destb) {   /* adjacent, not overlapping: valid input */
+                int same = rc == EOK && *retp == k && (to_wide ? (!memcmp(dest, rw, k * 4) && ((uint32_t *)dest)[k] == 0) : (!memcmp(dest, rm, k) && dest[k] == 0));
+                if (!same) { snprintf(obs, sizeof obs, "src = dest%+ld bytes (the operands touch but do not overlap): returned %s retval %zu, libc converts %zu", off, errname(rc), *retp, k);
+                    vio("C15", &s, -1, "adjacent-operands-rejected-or-wrong", "adjacent", obs); vio("C05", &s, -1, "R4-valid-call-reported-as-violation", "adjacent-operands", obs); }
+                continue;
+            }
             if (rc == ESOVRLP) { if (g_h.count != 1) { snprintf(obs, sizeof obs, "ESOVRLP with %d handler calls (src = dest%+ld bytes)", (int)g_h.count, off); vio("C05", &s, -1, "R1-handler-invoked-more-than-once", det, obs); } continue; }
             int same = rc == EOK && *retp == k && (to_wide ? (!memcmp(dest, rw, k * 4) && ((uint32_t *)dest)[k] == 0) : (!memcmp(dest, rm, k) && dest[k] == 0));
             if (!same) { snprintf(obs, sizeof obs, "src = dest%+ld bytes (source of %zu bytes, dmax %zu): returned %s retval %zu, disjoint operands give EOK and %zu: the overlap is not reported and the result differs", off, srcb, dmax, errname(rc), *retp, k);
